@@ -578,6 +578,18 @@ func (idx *Index) Put(key []byte, location types.Block) error {
 
 // Update updates a key together with a file offset into the index.
 func (idx *Index) Update(key []byte, location types.Block) error {
+	return idx.update(key, nil, location)
+}
+
+// Relocate updates the file offset of a key, but only if the index still maps
+// the key to oldLocation. It is used by the primary GC to move a record: a
+// record that the index no longer (or never did) refer to must not replace
+// the key's current location.
+func (idx *Index) Relocate(key []byte, oldLocation, location types.Block) error {
+	return idx.update(key, &oldLocation, location)
+}
+
+func (idx *Index) update(key []byte, oldLocation *types.Block, location types.Block) error {
 	// Get record list and bucket index
 	bucket, err := idx.getBucketIndex(key)
 	if err != nil {
@@ -606,6 +618,9 @@ func (idx *Index) Update(key []byte, location types.Block) error {
 	r := records.GetRecord(indexKey)
 	if r == nil {
 		return fmt.Errorf("key to update not found in index")
+	}
+	if oldLocation != nil && r.Block.Offset != oldLocation.Offset {
+		return fmt.Errorf("key to update is not stored at the expected location")
 	}
 	// Update key in position.
 	newData = records.PutKeys([]KeyPositionPair{{r.Key, location}}, r.Pos, r.NextPos())
